@@ -101,6 +101,20 @@ func named2(s string, v int) { Show(s, v) }
 
 func after(x int) int { return x + 1 }
 
+// function literal values created before the program runs; afterAll calls a declared function, a closure variable
+// and a stateful closure returned by a constructor: all must still work after the program, whatever its ending
+var keepc = func() int { return 47 }
+
+var mkc = func() func() int {
+	n := 100
+	return func() int {
+		n++
+		return n
+	}
+}()
+
+func afterAll(x int) int { return after(x) + keepc() + mkc() }
+
 func describe(tag string, r interface{}) {
 	switch v := r.(type) {
 	case nil:
